@@ -1,4 +1,5 @@
 import SdbModel.Model.Lpm
+import SdbModel.Generated.SliceParams
 /-!
   C13, the iterator: "full iteration and LowerBound(q) yield entries in ascending order …
   later transactions never alter what an earlier trie or ITERATOR returns".
@@ -143,6 +144,11 @@ theorem C13_lowerBound_iterator (data : List Nat) (plen : Nat) (t : Trie α) :
 theorem C13_iterator_result_determined_by_stack (st : List (Trie α)) (k : Nat) :
     (Iter.drain (iterFuel st) st).take k = (st.flatMap preorder).take k := by
   rw [C13_iterator_stack_refines_preorder]
+
+/-- `Iter.drain` leaves its argument alone (values); in the code `All()` "can be called multiple
+    times" because it pops and pushes on a COPY of the iterator's stack — regenerated from today's
+    `lpm/iterator.go` (a `slices.Clip` of `it.stack`, seeded change C13l, turns this false) -/
+theorem C13_iterator_all_works_on_a_copy : Gen.lpmIteratorAllWorksOnACopy = true := by decide
 
 /-! non-vacuity -/
 private def t3 : Trie Nat :=
